@@ -53,7 +53,12 @@ def value_to_json(value: object) -> object:
         return value
     if isinstance(value, int):
         if value < MIN_INTEGER or value > MAX_INTEGER:
-            return {"int": str(value)}
+            try:
+                return {"int": str(value)}
+            except ValueError:
+                # Python limits the number of digits when converting an integer to a
+                # decimal string (sys.set_int_max_str_digits), but not to a hexadecimal one
+                return {"int": hex(value)}
         return value
     if isinstance(value, str):
         try:
@@ -211,7 +216,8 @@ def constant_value_from_json(value: object) -> object:
     """
     if isinstance(value, dict):
         if "int" in value:
-            return int(value["int"])
+            # base 0, so that hexadecimal strings are parsed as well
+            return int(value["int"], 0)
         if "float" in value:
             v = value["float"]
             if v == "inf":
